@@ -81,7 +81,10 @@ def build(seed, i, tier):
             used[hrid[h]].append(hpaths[h])
         plan.append(tp)
     progs = []
-    nested_ctx = rs.random() < 0.15
+    # (threads entering their own nested buffer_backend() around operations were tried and withdrawn: C13 speaks of threads
+    #  MUTATING inside one enclosing context; the context counters are plain `+= 1` on shared state, so two threads
+    #  entering/leaving contexts at the same time can lose an increment at bytecode granularity - observation in DESIGN §7.8)
+    nested_ctx = False
     for tp in plan:
         ops = []
         for h in tp:
